@@ -86,11 +86,22 @@ Definition alignments_model (ref : list Z) (left right : Z) (pos : list Z) (rows
 Definition zll_eqb := list_eqb zlist_eqb.
 
 (* ---- Variant.counts() (python/tskit/genotypes.py 277-297) -------------------------------------
-   a collections.Counter filled by *assignment* counts[allele] = (number of genotypes == i) for
-   i, allele in enumerate(alleles); with missing data counts[None] is assigned first.  A
-   Counter is an insertion-ordered dict: assigning an existing key overwrites its value. *)
+   a collections.Counter, counts[None] assigned first when there is missing data, then
+       for i, allele in enumerate(alleles): counts[allele] += (number of genotypes == i)
+   (repaired code, /repo commit 8615230: "+=" — a missing key of a Counter reads as 0, so
+   duplicated alleles accumulate).  The pinned code assigned with "=", so a later duplicate
+   overwrote the value: [counts_model_pinned], kept as a historical record only. *)
 Definition okey_eqb (a b : option allele) : bool := opt_eqb allele_eqb a b.
 
+(* counts[k] += x *)
+Fixpoint dict_add (d : list (option allele * Z)) (k : option allele) (x : Z)
+  : list (option allele * Z) :=
+  match d with
+  | [] => [(k, x)]
+  | (k', y) :: r => if okey_eqb k k' then (k', y + x) :: r else (k', y) :: dict_add r k x
+  end.
+
+(* counts[k] = x  (pinned code) *)
 Fixpoint dict_set (d : list (option allele * Z)) (k : option allele) (x : Z)
   : list (option allele * Z) :=
   match d with
@@ -100,16 +111,20 @@ Fixpoint dict_set (d : list (option allele * Z)) (k : option allele) (x : Z)
 
 Definition count_eq (g : list Z) (i : Z) : Z := zlen (filter (Z.eqb i) g).
 
-Fixpoint counts_loop (g : list Z) (i : Z) (al : list allele) (d : list (option allele * Z))
+Fixpoint counts_loop (upd : list (option allele * Z) -> option allele -> Z -> list (option allele * Z))
+         (g : list Z) (i : Z) (al : list allele) (d : list (option allele * Z))
   : list (option allele * Z) :=
   match al with
   | [] => d
-  | a :: r => counts_loop g (i + 1) r (dict_set d (Some a) (count_eq g i))
+  | a :: r => counts_loop upd g (i + 1) r (upd d (Some a) (count_eq g i))
   end.
 
-Definition counts_model (r : decode_result) : list (option allele * Z) :=
+Definition counts_with upd (r : decode_result) : list (option allele * Z) :=
   let '(g, al, hm) := r in
-  counts_loop g 0 al (if hm then [(None, count_eq g MISSING)] else []).
+  counts_loop upd g 0 al (if hm then [(None, count_eq g MISSING)] else []).
+
+Definition counts_model := counts_with dict_add.            (* current /repo *)
+Definition counts_model_pinned := counts_with dict_set.     (* before commit 8615230 *)
 
 Fixpoint dict_get (d : list (option allele * Z)) (k : option allele) : option Z :=
   match d with
